@@ -761,6 +761,9 @@ func (c *EvalCtx) call(v *ECall) SV {
 		st := c.value(s)
 		el := s.typ.Underlying().(*types.Slice).Elem()
 		return SV{t: strOfBytes(sel(c.st.arrHeap(el), sliceArr(st)), sliceOff(st), sliceLen(st)), typ: types.Typ[types.String]}
+	case "strof":
+		// strof(a, off, n): the string made of n bytes of the content array a starting at off
+		return SV{t: strOfBytes(argT(0), argT(1), argT(2)), typ: types.Typ[types.String]}
 	case "abs":
 		x := argT(0)
 		return goInt(ite(app(SBool, ">=", x, mkInt(0)), x, app(SInt, "-", x)))
@@ -867,7 +870,7 @@ func (c *EvalCtx) call(v *ECall) SV {
 		st := c.value(s)
 		el := s.typ.Underlying().(*types.Slice).Elem()
 		return SV{t: sel(c.st.arrHeap(el), sliceArr(st))}
-	case "calls", "arg", "argc", "ret", "panicked":
+	case "calls", "arg", "argc", "ret", "retc", "panicked":
 		return c.x.logExpr(c, v)
 	case "held":
 		return c.x.lockExpr(c, v)
